@@ -4,7 +4,7 @@ import hashlib, json, os, shutil, subprocess, tempfile, time
 
 VERIF = os.path.dirname(os.path.dirname(os.path.abspath(__file__)))
 REPO = os.environ.get('VERIF_REPO', '/repo')
-DRIVER = os.path.join(VERIF, 'driver', 'target', 'release', 'mirfacts')
+DRIVER = os.environ.get('VERIF_DRIVER') or os.path.join(VERIF, 'driver', 'target', 'release', 'mirfacts')
 CACHE = os.path.join(VERIF, '.cache')
 
 # build configurations (DESIGN.md section 2.1)
